@@ -19,7 +19,7 @@ FUZZ = {"thorough": 2500}  # executions per atheris process (16 processes), afte
 RULE = (
     "Hypothesis draws an oil (as C12), salinity 0..25, a gas pseudocritical point, a dtype from "
     "{float64, float32, int64, int32}, a length 0..40 and a layout (contiguous, step 2, step 3, reversed view of a "
-    "larger base array, or a pandas Series with non-default row labels); elements are fractions of [15, 2.5 p_b] mixed with p_b itself (exact in float64), its "
+    "larger base array, a pandas Series with non-default row labels, a 2-D grid in C order / Fortran order / as a transposed view, or a 0-d array); elements are fractions of [15, 2.5 p_b] mixed with p_b itself (exact in float64), its "
     "float neighbours and its integer neighbours. Every array-accepting correlation (oil FVF, solution GOR, "
     "undersaturated compressibility, oil density, the five water correlations, the Fluid methods) is called "
     "once with the array and once per element with a Python float. Non-trivial = length >= 2 with values on "
@@ -30,7 +30,7 @@ ASSUMPTIONS = [
     "oil_compressibility_undersat_Spivey gets 64x that tolerance: its quadratic form in six logarithms is summed in a "
     "different order by the array branch (matrix product) and rounding is amplified by the exponential (measured "
     "worst case 70 eps far below the bubble point)",
-    "1-D arrays only (the Fluid wrappers iterate over the array)",
+    "1-D arrays for every function; 0-d and 2-D arrays (C order, Fortran order, transposed view) are checked for every function that accepts them (a function raising on such a shape does not 'accept' it and is counted, not reported)",
     "the gas wrappers of Fluid are compared only for reduced pressure <= 30",
     "the water correlations are compared only when every pressure is <= 20000 psia: beyond 46340 psia the square of "
     "an int32 pressure overflows, far outside any pressure the McCain correlations are meant for (an implicit "
@@ -49,7 +49,7 @@ def strategy_(draw):
     oil = draw(gens.oil_params())
     dtype = draw(st.sampled_from(DTYPES + ["float64", "int64"]))
     n = draw(st.one_of(st.sampled_from([0, 1, 2]), st.integers(0, 40)))
-    layout = draw(st.sampled_from(["contiguous", "contiguous", "step2", "step3", "reversed", "series"]))
+    layout = draw(st.sampled_from(["contiguous", "contiguous", "step2", "step3", "reversed", "series", "2d-C", "2d-F", "2d-T", "0d"]))
     elems = [
         draw(
             st.one_of(
@@ -90,6 +90,26 @@ def _build_array(case, pb):
     arr = np.array(vals, dtype=dt)
     layout = case["layout"]
     n = len(vals)
+    if layout == "0d":
+        # a 0-dimensional array (what np.asarray(scalar) or an element of np.nditer gives)
+        base = np.array(vals[0] if n else 15, dtype=dt)
+        return base, base
+    if layout.startswith("2d"):
+        # N-d pressure grids in C order, Fortran order and as a transposed view (DataFrame.to_numpy(), meshgrid.T)
+        if n < 4:
+            arr = np.array((vals + [15, 15, 15, 15])[:4], dtype=dt)
+            n = 4
+        r = 2 if n % 3 else 3
+        c = n // r
+        arr = arr[: r * c]
+        if layout == "2d-C":
+            base = arr.reshape(r, c).copy()
+            return base, base
+        if layout == "2d-F":
+            base = np.asfortranarray(arr.reshape(r, c))
+            return base, base
+        base = arr.reshape(c, r).copy()
+        return base, base.T
     if layout == "contiguous" or n == 0:
         base = arr.copy()
         view = base
@@ -119,7 +139,8 @@ def check_case(case) -> Result:
         res.skipped = "bubble point <= 50 psia"
         return res
     base, arr = _build_array(case, pb)
-    n = arr.shape[0]
+    n = int(arr.size)
+    nd = arr.ndim != 1
     given = arr
     if case["layout"] == "series" and n > 0:
         import pandas as pd
@@ -161,18 +182,26 @@ def check_case(case) -> Result:
         try:
             out = f_arr(given)
         except Exception as e:  # noqa: BLE001
+            if nd:
+                # a correlation that does not accept 0-d / N-d input at all is outside "accepts an array of
+                # pressures" for this shape; one that does accept it must get shape and values right
+                res.counts["nd_input_not_accepted"] = res.counts.get("nd_input_not_accepted", 0) + 1
+                continue
             res.bad("C11/array-call-raises", f"{name}(array dtype={arr.dtype} n={n} layout={case['layout']}) raised {type(e).__name__}: {e}")
             continue
         out = np.asarray(out)
         if out.shape != arr.shape:
             res.bad("C11/shape", f"{name}: result shape {out.shape} for input shape {arr.shape} dtype={arr.dtype}")
             continue
-        if out.dtype.kind != "f":
+        # a 0-d input takes the scalar branch, which hands an integer initial GOR back as given (documented example)
+        if out.dtype.kind != "f" and arr.ndim != 0:
             res.bad("C11/float-result", f"{name}: result dtype {out.dtype} for input dtype {arr.dtype}")
         if base.tobytes() != snapshot:
             res.bad("C11/input-unmodified", f"{name} modified its input array (dtype={arr.dtype} layout={case['layout']})")
             base[...] = np.frombuffer(snapshot, dtype=base.dtype).reshape(base.shape)
-        for k in range(n):
+        if nd:
+            res.counts["nd_input_accepted"] = res.counts.get("nd_input_accepted", 0) + 1
+        for k in np.ndindex(arr.shape):
             pk = float(arr[k])
             want = float(lib(f"{name} scalar", f_sc, pk))
             got = float(out[k])
@@ -186,7 +215,7 @@ def check_case(case) -> Result:
             )
             if not ok:
                 break
-    vals = [float(x) for x in arr]
+    vals = [float(x) for x in arr.ravel()]
     both = any(v < pb for v in vals) and any(v >= pb for v in vals)
     res.nontrivial = (n >= 2 and both) or case["dtype"] != "float64" or (case["layout"] != "contiguous" and n > 0) or n == 0
     res.labels["dtype"] = case["dtype"]
